@@ -59,8 +59,15 @@ def concretise(c, rnd):
         if tk == "circle" and c["w"] != c["h"]:
             tk = "ellipse"
         w, h = q(c["w"]), q(c["h"])
-        tpl = {"rect": f'<rect id="t" wh="{w} {h}"/>', "circle": f'<circle id="t" r="{q(c["w"] / 2)}"/>',
-               "ellipse": f'<ellipse id="t" rx="{q(c["w"] / 2)}" ry="{q(c["h"] / 2)}"/>',
+        param = ""
+        if tk.endswith("-param"):
+            tk = tk[:-6]
+            param = f' pw="{w}" ph="{h}" hw="{q(c["w"] / 2)}" hh="{q(c["h"] / 2)}"'
+            w, h = "$pw", "$ph"
+        tpl = {"text": '<text id="t" xy="0 0" text="label"/>',
+               "line": f'<line id="t" xy1="0 0" xy2="{w} {h}"/>', "linerev": f'<line id="t" xy1="{w} {h}" xy2="0 0"/>',
+               "rect": f'<rect id="t" wh="{w} {h}"/>', "circle": f'<circle id="t" r="{q(c["w"] / 2)}"/>',
+               "ellipse": (f'<ellipse id="t" rx="{q(c["w"] / 2)}" ry="{q(c["h"] / 2)}"/>' if not param else '<ellipse id="t" rx="$hw" ry="$hh"/>'),
                "g": f'<g id="t"><rect wh="{w} {h}"/></g>', "symbol": f'<symbol id="t"><rect wh="{w} {h}"/></symbol>'}[tk]
         an = c["anchor"]
         xs, ys = q(c["x"]), q(c["y"])
@@ -82,6 +89,9 @@ def concretise(c, rnd):
                 pos = rnd.choice([f'xy="{both}"', f'xy="{both}" xy-loc="tl"'] + ([f'x="{xs}" y="{ys}"'] if xs else []))
             elif an == "c":
                 pos = rnd.choice([f'cxy="{both}"', f'xy="{both}" xy-loc="c"'] + ([f'cx="{xs}" cy="{ys}"'] if xs else []))
+            elif an == "br" and tk.startswith("line"):
+                # (xy2 / x2 / y2 on the reuse element of a line would override the line's own end point)
+                pos = f'xy="{both}" xy-loc="br"'
             elif an == "br":
                 pos = rnd.choice([f'xy2="{both}"', f'xy="{both}" xy-loc="br"'] + ([f'x2="{xs}" y2="{ys}"'] if xs else []))
             else:
@@ -90,14 +100,15 @@ def concretise(c, rnd):
         sty = rnd.choice(["", ' style="opacity: 0.5"', ' style="opacity: 0.5" class="mine"'])
         if rnd.random() < 0.4:
             tpl = tpl.replace('id="t"', 'id="t" style="fill: red"', 1)
-        use = f'<reuse id="s" href="#t" {pos}{sty}/>'
-        if c["where"] == "specs":
+        use = f'<reuse id="s" href="#t" {pos}{sty}{param}/>'
+        where = c["where"] if not param else "specs"     # a template that needs the variables is not drawn itself
+        if where == "specs":
             return f"<svg>{base}<specs>{tpl}</specs>{use}</svg>"
-        if c["where"] == "defs":
+        if where == "defs":
             if tk not in ("g", "symbol"):
                 return f"<svg><specs>{tpl}</specs>{base}{use}</svg>"
             return f"<svg><defs>{tpl}</defs>{base}{use}</svg>"
-        if c["where"] == "inline-before":
+        if where == "inline-before":
             return f"<svg>{tpl}{base}{use}</svg>"
         return f"<svg>{base}{use}{tpl}</svg>"
     r = geom.ref_element(c["refkind"], c["ref"], "r", rnd)
@@ -185,6 +196,8 @@ def respell(xml, rnd):
 def instance_bbox(el, case):
     """box of a reuse instance: a shape by its attributes, a group by its translate() applied to the template's box"""
     import re
+    if el.name == "text":
+        return (float(el.attrs.get("x", 0)), float(el.attrs.get("y", 0))) * 2
     if el.name != "g":
         return geom.el_bbox(el)
     w, h = case["w"] / 4, case["h"] / 4
